@@ -156,7 +156,15 @@ def _dict_iter(ex: Exec, d: SV, what: str) -> IterAbs:
     def key(i):
         k = s[i]
         if not _has_bound(ex):
-            ex.assume(z3.Implies(z3.And(0 <= i, i < z3.Length(s)), z3.Select(dom, k)))
+            rng = z3.And(0 <= i, i < z3.Length(s))
+            # instances of the dict representation invariant at the iterated key:
+            # it is in the domain and does not occur among the earlier keys
+            ex.assume(z3.Implies(rng, z3.Select(dom, k)))
+            ex.assume(z3.Implies(rng, z3.Not(z3.Contains(z3.Extract(s, 0, i), z3.Unit(k)))))
+            # sequence lemma (valid for 0 <= i < len): prefix(i+1) = prefix(i) ++ [s[i]]
+            ex.assume(z3.Implies(rng, z3.Extract(s, 0, i + 1) == z3.Concat(z3.Extract(s, 0, i), z3.Unit(k))))
+            # keys are pairwise distinct, so the i-th key has position i
+            ex.assume(z3.Implies(rng, S.key_index(s, k) == i))
         return ex.typed(k, kty)
 
     if what == "keys":
@@ -240,33 +248,62 @@ def assigned_names(stmts: list[ast.stmt]) -> set[str]:
     return out
 
 
-def havoc_for_loop(ex: Exec, names: set[str], heap: bool = True) -> None:
-    """Forget everything a loop iteration may have changed: assigned locals and
-    every heap location the function is allowed to modify or has allocated."""
+def havoc_for_loop(ex: Exec, names: set[str], st: ast.stmt | None = None, heap: bool = True) -> None:
+    """Forget what a loop iteration may have changed: assigned locals, and the heap
+    locations in the loop's syntactic write set (restricted to the function's frame)."""
+    writes = loop_writes(ex, st) if (heap and st is not None) else ([] if not heap else None)
+    targeted: list[tuple[Any, tuple[str, ...]]] = []
+    coarse_maps: set[str] | None = set()
+    if writes is None:
+        coarse_maps = None
+    else:
+        for base, maps in writes:
+            free = {x.id for x in ast.walk(base) if isinstance(x, ast.Name)} if base is not None else set()
+            if base is not None and not (free & names) and all(v in ex.locals for v in free):
+                try:
+                    saved = ex.spec
+                    ex.spec = True
+                    try:
+                        v = ex.eval(base)
+                    finally:
+                        ex.spec = saved
+                    if v.ty.kind in ("dict", "list", "set", "obj", "tuple"):
+                        targeted.append((ex.ref_id(v), maps))
+                        continue
+                except Unsupported:
+                    pass
+            if coarse_maps is not None:
+                coarse_maps.update(maps)
     for n in sorted(names):
         if n in ex.locals:
             old = ex.locals[n]
             t = ex.fresh(f"hv_{n}")
             nv = ex.typed(t, old.ty) if old.ty.kind != "raw" else SV(ex.fresh(f"hv_{n}", old.t.sort()), old.ty, old.aux)
             ex.locals[n] = nv
-    if not heap:
-        return
     evno = len(ex.events)
     modset = list(ex.modset)
     alloc0 = ex.alloc0
 
-    def ev(name, arr, evno=evno, modset=modset, alloc0=alloc0):
+    def ev(name, arr, evno=evno, modset=modset, alloc0=alloc0, targeted=targeted, coarse_maps=coarse_maps):
+        for k, (oid, maps) in enumerate(targeted):
+            if name in maps:
+                fr = z3.Const(f"hv{evno}_t{k}_{name.replace(':', '_')}", S.heap_sort(name).range())
+                arr = z3.Store(arr, oid, fr)
+        if coarse_maps is not None and name not in coarse_maps:
+            return arr
+        if name == "cls" and coarse_maps is not None:
+            return arr
         o = z3.Int("o!hv")
         fresh = z3.Const(f"hv{evno}_{name.replace(':', '_')}", S.heap_sort(name))
         conds = [o >= alloc0]
-        for mid, mname in modset:
-            if mod_covers(mname, name):
-                conds.append(o == mid)
-        if name == "cls":
-            conds = [o >= alloc0]
+        if name != "cls":
+            for mid, mname in modset:
+                if mod_covers(mname, name):
+                    conds.append(o == mid)
         return z3.Lambda([o], z3.If(z3.Or(conds), z3.Select(fresh, o), z3.Select(arr, o)))
 
-    ex.add_event(ev)
+    if targeted or coarse_maps is None or coarse_maps:
+        ex.add_event(ev)
     # allocation may have advanced
     na = ex.fresh("alloc", S.INT)
     ex.assume(na >= ex.alloc)
@@ -275,40 +312,60 @@ def havoc_for_loop(ex: Exec, names: set[str], heap: bool = True) -> None:
 
 _MUTATING = {"append", "extend", "insert", "pop", "remove", "clear", "update", "setdefault", "add", "discard",
              "put", "get_nowait", "sort", "reverse", "popitem"}
+_PURE_METHODS = {"items", "values", "keys", "get", "copy", "issubset", "issuperset", "difference", "union",
+                 "intersection", "startswith", "endswith", "format", "join", "index", "count", "lower", "upper",
+                 "strip", "split", "replace", "isdigit", "to_dict", "iterrows", "isdisjoint"}
+_PURE_FUNCS = {"isinstance", "len", "set", "list", "dict", "tuple", "sorted", "zip", "enumerate", "range", "all",
+               "any", "cast", "float", "int", "str", "bool", "abs", "min", "max", "sum", "reversed", "print"}
 
 
-def write_footprint(st: ast.stmt) -> str:
-    """Syntactic over-approximation of what a loop body may write to the heap:
-    'none', 'some' (attributes / containers / calls)."""
+def loop_writes(ex: Exec, st: ast.stmt) -> list[tuple[ast.expr | None, tuple[str, ...]]] | None:
+    """What a loop body may write to the heap (syntactic over-approximation):
+    a list of (base expression or None, heap maps); None = anything in the frame.
+    A base expression that does not depend on names assigned in the loop denotes
+    one object, evaluated at loop entry; otherwise every object of the frame."""
+    out: list[tuple[ast.expr | None, tuple[str, ...]]] = []
+    cont = ("seq", "dmap", "ddom")
     for n in ast.walk(st):
-        if isinstance(n, (ast.Attribute, ast.Subscript)) and isinstance(n.ctx, (ast.Store, ast.Del)):
-            return "some"
-        if isinstance(n, ast.Call):
+        if isinstance(n, ast.Attribute) and isinstance(n.ctx, (ast.Store, ast.Del)):
+            out.append((n.value, ("fld:" + n.attr,)))
+        elif isinstance(n, ast.Subscript) and isinstance(n.ctx, (ast.Store, ast.Del)):
+            out.append((n.value, cont))
+        elif isinstance(n, ast.AugAssign) and isinstance(n.target, ast.Name) and isinstance(n.op, ast.BitOr):
+            out.append((n.target, cont))  # d |= other  mutates d in place
+        elif isinstance(n, ast.Call):
             f = n.func
             if isinstance(f, ast.Attribute):
-                if f.attr in _MUTATING:
-                    return "some"
-                if f.attr in ("items", "values", "keys", "get", "copy", "issubset", "difference", "union",
-                              "startswith", "endswith", "format", "join", "index", "count", "lower", "upper",
-                              "strip", "split", "replace", "isdigit", "to_dict", "iterrows"):
+                name = f.attr
+                cands = [c for q, c in ex.ver.contracts.items() if q.split(":")[1].split(".")[-1] == name]
+                if cands:
+                    for c in cands:
+                        m = c.clauses.get("modifies")
+                        body = m.body if isinstance(m, ast.Lambda) else m
+                        if m is None or not (isinstance(body, (ast.List, ast.Tuple)) and not body.elts):
+                            return None
                     continue
-                return "some"
-            if isinstance(f, ast.Name) and f.id in ("isinstance", "len", "set", "list", "dict", "tuple", "sorted",
-                                                       "zip", "enumerate", "range", "all", "any", "cast", "float",
-                                                       "int", "str", "bool", "abs", "min", "max", "sum", "reversed"):
-                continue
-            return "some"
-    return "none"
+                if name in _MUTATING:
+                    out.append((f.value, cont))
+                    continue
+                if name in _PURE_METHODS:
+                    continue
+                return None
+            if isinstance(f, ast.Name):
+                if f.id in _PURE_FUNCS or f.id in ex.locals:
+                    continue
+                return None
+            return None
+    return out
 
 
 def default_loop_spec(ex: Exec, st: ast.stmt, ordinal: int) -> dict:
-    """A loop without a supplied invariant is cut with the invariant `True`.  A
-    read-only body (syntactic footprint 'none') havocs only its assigned locals;
-    otherwise everything the function may modify is forgotten (sound
-    over-approximation; postconditions that depend on the loop then fail to prove
-    and must be given an invariant)."""
-    fp = write_footprint(st)
-    ex.ver.default_invariants.add(f"{ex.fi.qualname} loop#{ordinal} (footprint {fp})")
+    """A loop without a supplied invariant is cut with the invariant `True`: only its
+    syntactic write set is forgotten (sound over-approximation; postconditions that
+    depend on what the loop computes then fail to prove and need an invariant)."""
+    w = loop_writes(ex, st)
+    fp = "none" if w == [] else "some"
+    ex.ver.default_invariants.add(f"{ex.fi.qualname} loop#{ordinal} (write set {'empty' if w == [] else 'non-empty' if w else 'unknown'})")
     return {"inv": ast.parse("True", mode="eval").body, "footprint": fp}
 
 
@@ -369,7 +426,7 @@ def exec_for(ex: Exec, st: ast.For) -> None:
     # 1. establish
     inv_at(z3.IntVal(0), "inv.establish", True)
     which = ex.choose(2, None, label + "c")
-    havoc_for_loop(ex, names, heap=spec.get("footprint") != "none")
+    havoc_for_loop(ex, names, st, heap=spec.get("footprint") != "none")
     if which == 0:
         # 2. arbitrary iteration
         i = ex.fresh("i", S.INT)
@@ -427,7 +484,7 @@ def exec_while(ex: Exec, st: ast.While) -> None:
 
     inv("inv.establish", True)
     which = ex.choose(2, None, label + "c")
-    havoc_for_loop(ex, names, heap=spec.get("footprint") != "none")
+    havoc_for_loop(ex, names, st, heap=spec.get("footprint") != "none")
     inv("", False)
     is_true = isinstance(st.test, ast.Constant) and st.test.value is True
     if which == 0:
